@@ -7,6 +7,7 @@ import (
 	"errors"
 	"fmt"
 	"hash/fnv"
+	"io"
 	"net"
 	"reflect"
 	"sort"
@@ -277,6 +278,9 @@ func newStreamExplorer(sc streamScenario, alphabet []streamFrame, outAlphabet []
 		run.conn = &scriptConn{chunks: chunks}
 		if sc.FailAfter >= 0 {
 			run.conn.failErr = errors.New(sc.FailErr)
+			if sc.FailErr == "EOF" {
+				run.conn.failErr = io.EOF // the very value a closed TCP connection yields
+			}
 		}
 		run.got = nil
 		run.submitted = make([][][]byte, len(sc.Producers))
